@@ -84,7 +84,12 @@ func rulesC10(r *Run) {
 	ruleFixVerdictStickyAll(r, "R3")
 	ruleFailedGroupNotPassed(r, "R3", smKey("BlockPostChecks"), "PostChecks")
 	ruleFailedGroupNotPassed(r, "R3", smKey("BlockDeferredChecks"), "DeferredChecks")
-	r.Expect("R3", 39)
+	ruleSelfLoopMakesProgress(r, "R3")
+	ruleLaunchLoopPassesFinished(r, "R3")
+	ruleFixSeqVerdicts(r, "R3")
+	ruleFixPlanCompletedOnlyIfChecksDone(r, "R3")
+	ruleRunnerStartSilentStop(r, "R3")
+	r.Expect("R3", 46)
 
 	r.Kind("R4", "K1+K3")
 	ruleRecoveryDeferred(r, "R4", m)
